@@ -325,7 +325,11 @@ of size %dx%d""" % (N, N, N))
         # fails for polynomial rings.  The latter can be handled
         # by converting it to a field.
         try:
-            return M.to_DM().to_field().inv().to_Matrix()
+            dM = M.to_DM()
+            if dM.domain.is_EXRAW:
+                # Zero testing is unreliable in the raw expression domain.
+                dM = M.expand().to_DM()
+            return dM.to_field().inv().to_Matrix()
         except:
             try:
                 from sympy.polys.domainmatrix import DomainMatrix
@@ -350,8 +354,11 @@ def matrix_solve(M, b, method='default'):
             dM, db = M.to_DM(), b.to_DM()
             if dM.domain.is_EXRAW or db.domain.is_EXRAW:
                 # Zero testing is unreliable in the raw expression domain
-                # (unexpanded zero pivots); invert M instead.
-                raise ValueError('EXRAW domain')
+                # (unexpanded zero pivots).  Expanding the entries usually
+                # gives a proper domain; otherwise invert M instead.
+                dM, db = M.expand().to_DM(), b.expand().to_DM()
+                if dM.domain.is_EXRAW or db.domain.is_EXRAW:
+                    raise ValueError('EXRAW domain')
             sol_num, sol_den = dM.solve_den(db)
             x = (sol_num.to_field() / sol_den).to_Matrix()
         except:
